@@ -452,14 +452,9 @@ func c03GenBM(r *vrand) (pairs [][2]int64, memLen int64, fill byte, gen string) 
 		case k < 5:
 			sizes[i] = memLen + 1 + c03LogUniform(r, 0, 1<<20) // violates VerifyConfig's rule
 		case k < 7:
-			// size+20 wraps in uint32 (2^32-20 divides by zero).  The wrapped stride is below 20 bytes, so the
-			// slot count explodes; the model's slot loop is evaluated step by step inside Coq, hence only small
-			// mappings get the general case and large ones the division by zero (which precedes any loop)
-			if memLen <= 1<<16 {
-				sizes[i] = (int64(1) << 32) - 1 - int64(r.intn(24))
-			} else {
-				sizes[i] = (int64(1) << 32) - bufferHeaderSize
-			}
+			// size+20 wraps in uint32: rejected with an error since /repo db4e530 (2^32-20 used to divide by zero,
+			// the other values gave strides below 20 bytes)
+			sizes[i] = (int64(1) << 32) - 1 - int64(r.intn(24))
 		case k < 12:
 			sizes[i] = memLen - int64(r.intn(64)) // whole-mapping slices
 		default:
@@ -563,7 +558,7 @@ func c03RunBM(c *c03Case, mem []byte, canary []byte) {
 	pairs := make([]*SizePercentPair, n)
 	// the hypotheses of the proved statements: C03_buffers_partial (mapping below 4 GiB - 36 B, any percentages),
 	// or C03_buffers_config (what VerifyConfig enforces: percent sum = 100 in int, sizes <= capacity < 2^32 — plus
-	// size+20 < 2^32 and room for the list headers, which the code does not enforce)
+	// room for the list headers, which the code does not enforce)
 	partial := n >= 1 && c.MemLen+bufferListHeaderSize < 1<<32 && n < 1<<16
 	config := n >= 1 && c.MemLen < 1<<32 && bufferListHeaderSize*int64(n)+bufferManagerHeaderSize <= c.MemLen
 	psum := int64(0)
@@ -572,9 +567,6 @@ func c03RunBM(c *c03Case, mem []byte, canary []byte) {
 		psum += p[1]
 		if p[0] > c.MemLen {
 			partial, config = false, false
-		}
-		if p[0]+bufferHeaderSize >= 1<<32 {
-			config = false
 		}
 	}
 	c.Guard = partial || (config && psum == 100)
@@ -610,7 +602,7 @@ func c03RunBM(c *c03Case, mem []byte, canary []byte) {
 		if c.Guard {
 			add("panic: createBufferManager panicked")
 		} else if verifyOK {
-			c.Degen = append(c.Degen, "createBufferManager panics on a configuration VerifyConfig accepts: Size + bufferHeaderSize wraps in uint32")
+			c.Degen = append(c.Degen, "createBufferManager panics on a configuration VerifyConfig accepts")
 		} else {
 			c.Degen = append(c.Degen, "createBufferManager panics on a configuration VerifyConfig would reject")
 		}
@@ -1070,6 +1062,7 @@ func TestVerif_C03(t *testing.T) {
 	// (1b) the last bytes below 4 GiB, on a lazily backed anonymous mapping of 2^32-1 bytes (only the pages of the
 	// headers that are written get backed): two honest configurations VerifyConfig accepts (C03_buffers_config
 	// regime, where C03_buffers_partial's guard fails), and the accepted configuration whose Size+20 wraps to 0
+	// (divided by zero before /repo db4e530, must be an error now)
 	for _, pairs := range [][][2]int64{
 		{{1 << 31, 100}},
 		{{1 << 30, 50}, {1<<30 + 4096, 50}},
